@@ -21,7 +21,7 @@ _SHAPES = [
     ("SHAPE_UPDATE_MIN_NAN", "parquet/src/column/writer/mod.rs", "(false, true) => {} // current min is NaN, but incoming is not: assign val to min (true, false) => *min = val.clone(),"),
     ("SHAPE_UPDATE_MAX_NAN", "parquet/src/column/writer/mod.rs", "(false, true) => {} // current max is NaN, but incoming is not: assign val to max (true, false) => *max = val.clone(),"),
     ("SHAPE_IS_NAN_F16", "parquet/src/column/writer/mod.rs", "let uval = ((val[1] as u16) << 8) | val[0] as u16;"),
-    ("SHAPE_NULL_PAGE", "parquet/src/column/writer/mod.rs", "(self.page_metrics.num_buffered_rows as u64) == self.page_metrics.num_page_nulls;"),
+    ("SHAPE_NULL_PAGE", "parquet/src/column/writer/mod.rs", "(self.page_metrics.num_buffered_values as u64) == self.page_metrics.num_page_nulls;"),
     ("SHAPE_NOT_ASCENDING", "parquet/src/column/writer/mod.rs", "let not_ascending = compare_greater(basic_info, last_min, new_min) || compare_greater(basic_info, last_max, new_max);"),
     ("SHAPE_NOT_DESCENDING", "parquet/src/column/writer/mod.rs", "let not_descending = compare_greater(basic_info, new_min, last_min) || compare_greater(basic_info, new_max, last_max);"),
     ("SHAPE_BOUNDARY_ORDER", "parquet/src/column/writer/mod.rs", "(true, _) => BoundaryOrder::ASCENDING, (false, true) => BoundaryOrder::DESCENDING, (false, false) => BoundaryOrder::UNORDERED,"),
